@@ -65,6 +65,7 @@ PROBES = {
         "block:delay-slot",
         "slice:checked",
         "cut:checked",
+        "insert:block-starting-in-delay-slot",
     ]
 }
 
@@ -340,7 +341,20 @@ class Case(object):
             if end is None:
                 end = _v(instrs[-1].address) + instrs[-1].length
             self.blockend[a] = end
-        self.bounds = [a for a in self.bounds if a not in self.slots]
+        # (blocks started at a delay-slot address are legitimate insertions too: they are
+        # consecutive instructions of the same stream; their end comes from the scan above)
+        for k, i in enumerate(instrs):
+            a = _v(i.address)
+            if a in self.slots:
+                delay = False
+                end = None
+                for j in instrs[k:]:
+                    if j.misc.get("delayed", False):
+                        delay = True
+                    elif j.type == 2 or delay:
+                        end = _v(j.address) + j.length
+                        break
+                self.blockend[a] = end if end is not None else _v(instrs[-1].address) + instrs[-1].length
         got = list(self.z.iterblocks(0))
         if [[_v(i.address) for i in b.instr] for b in got] != [[_v(i.address) for i in b] for b in ref]:
             raise Failure(
@@ -427,6 +441,8 @@ class Case(object):
                 kinds.append("before-first")
             if a >= before[-1][0] + len(before[-1][1]):
                 kinds.append("after-last")
+        if a in self.slots:
+            st.hit("probe:insert:block-starting-in-delay-slot")
         vtx = self.G.get_by_name("blck_%s" % str(b.address)) or cfg.node(b)
         self.G.add_vertex(vtx)
         for i in b.instr:
@@ -478,7 +494,10 @@ class Case(object):
         nodes = self.support_nodes()
         cov = {}
         prev_end = None
+        vertices = set(id(x) for x in G.V())
         for (s, n, mo) in nodes:
+            if id(n) not in vertices:
+                raise Failure("support-node-not-in-graph", "cfgsim:support:foreign-node", {"tag": tag, "at": s, "node": str(getattr(n, "name", n))})
             ia = [(_v(i.address), i.length) for i in n.data.instr]
             if not ia:
                 raise Failure("support-empty-node", "cfgsim:support:empty-node", {"tag": tag, "at": s})
